@@ -506,6 +506,40 @@ def _body_rules(unit, item, lo, hi, ed, rules, counts, outer_ret, depth):
                 continue
             ed.replace(s0, close + 1, stub)
             _bump(rules, "declared opaque constructor call `%s(..)` => `%s`" % (path, stub))
+    for (anchor, params, ret, ens) in unit.closures_all:
+        p = pat_of(anchor)
+        kk = 1
+        while True:
+            s = find_seq(toks, lo, hi, p, kk)
+            if s is None:
+                break
+            kk += 1
+            if any(a <= s < b for (a, b, _) in ed.repl):
+                continue
+            _annotate_closure(item, s, len(p), params, ret, ens, ed, "unit-wide closure contract")
+            _bump(rules, "closure contract injected (unit-wide): `%s`" % anchor)
+
+
+def _annotate_closure(item, s, plen, params, ret, ens, ed, qual):
+    toks = item.toks
+    if toks[s].text == "||":
+        pe = s
+    else:
+        if toks[s].text != "|":
+            raise ExtractError("%s: closure anchor must start with `|`" % qual)
+        pe = s + 1
+        while toks[pe].text != "|":
+            pe += 1
+    if params:
+        # names must be preserved
+        orig_names = [t.text for t in toks[s + 1:pe] if t.kind == "ident"]
+        new_names = [t.text for t in code_tokens(lex(params)) if t.kind == "ident"]
+        if not all(nm in new_names for nm in orig_names):
+            raise ExtractError("%s: closure params `%s` do not keep the original names %s" % (qual, params, orig_names))
+        ed.replace(s, pe + 1, params + (" -> %s" % ret if ret else "") + ("\n ensures " + ens.strip() + "\n" if ens.strip() else "") + " {")
+    else:
+        ed.ins_after(pe, (" -> %s" % ret if ret else "") + ("\n ensures " + ens.strip() + "\n" if ens.strip() else "") + " {")
+    ed.ins_after(s + plen - 1, " }")
 
 
 def _inline_helpers(unit, item, lo, hi, ed, rules, counts, outer_ret, depth=0):
@@ -732,24 +766,7 @@ def _emit_fn(unit, fs, it, out, rules):
             s = find_seq(toks, bo + 1, bc, p, k_)
             if s is None:
                 raise ExtractError("%s: closure anchor `%s` (#%d) not found" % (fs.qual, anchor, k_))
-            if toks[s].text == "||":
-                pe = s
-            else:
-                if toks[s].text != "|":
-                    raise ExtractError("%s: closure anchor must start with `|`" % fs.qual)
-                pe = s + 1
-                while toks[pe].text != "|":
-                    pe += 1
-            if params:
-                # names must be preserved
-                orig_names = [t.text for t in toks[s + 1:pe] if t.kind == "ident"]
-                new_names = [t.text for t in code_tokens(lex(params)) if t.kind == "ident"]
-                if not all(nm in new_names for nm in orig_names):
-                    raise ExtractError("%s: closure params `%s` do not keep the original names %s" % (fs.qual, params, orig_names))
-                ed.replace(s, pe + 1, params + (" -> %s" % ret if ret else "") + ("\n ensures " + ens.strip() + "\n" if ens.strip() else "") + " {")
-            else:
-                ed.ins_after(pe, (" -> %s" % ret if ret else "") + ("\n ensures " + ens.strip() + "\n" if ens.strip() else "") + " {")
-            ed.ins_after(s + len(p) - 1, " }")
+            _annotate_closure(it, s, len(p), params, ret, ens, ed, fs.qual)
             _bump(rules, "closure contract injected in %s" % fs.qual)
         out_text = render(it, it.a, bc + 1, ed)
     for kname, n in counts.items():
